@@ -335,7 +335,9 @@ def groups(tier, seed):
     yield {'cases': [{'kind': 'literal-spelling', 'a': a, 'b': b} for a, b in (
         ("concat(name, '.1')", "concat(name, '.10')"), ('concat(size, 07)', 'concat(size, 7)'), ('concat(name, 5)', 'concat(name, 5.0)'), ("concat('0x', 010)", "concat('0x', 10)"),
         ("length(concat(size, 07))", "length(concat(size, 7))"), ("concat(name, '1e3')", "concat(name, '1000')"), ("upper(concat('v', '1.0'))", "upper(concat('v', '1'))"),
-        ("concat(name, ' ', '+5')", "concat(name, ' ', '5')"))]}
+        ("concat(name, ' ', '+5')", "concat(name, ' ', '5')"), ("concat(size, '2K')", "concat(size, '2k')"), ("concat(name, '1 M')", "concat(name, '1m')"),
+        ("upper(concat('v', '1KB'))", "lower(concat('v', '1kb'))"), ("length(concat(size, '1 kib'))", "length(concat(size, '1kib'))"), ("concat(name, '1.50G')", "concat(name, '1.5g')"),
+        ("concat(name, '10B')", "concat(name, '10')"), ("concat(name, 'TRUE')", "concat(name, 'true')"), ("concat(name, '2024-01-01')", "concat(name, '2024-1-1')"))]}
     # an operator glued to its left operand only, a size literal as operand, a sign in front of a bracket
     yield {'cases': [{'kind': 'compact-underscore', 'a': a, 'b': b} for a, b in (
         ('size* 2', 'size * 2'), ('size+ 1', 'size + 1'), ('10- 4- 3', '10 - 4 - 3'), ('2- -3', '2 - -3'), ('size/ 2', 'size / 2'), ('size% 2', 'size % 2'), ('hardlinks* size', 'hardlinks * size'),
